@@ -1,4 +1,4 @@
-CONSTANTS MaxN = 6 MaxNLen = 5
+CONSTANTS MaxN = 6 MaxNLen = 5 MaxNHist = 5 MinLen = 0
 INIT Init
 NEXT Next
 INVARIANT Emitted
